@@ -133,7 +133,7 @@ def run(ctx):
     ctx.rule("C14.snapshot", "ordering: strip C objects -> dump; import pycode -> load -> repoint views; __getstate__ present", 8)
     ctx.rule("C14.effects", "effect analysis over the resolved call graph: load_ss / fix_view_arrays / init_resume write no array content "
              "(init_resume: only dae.t)", 3)
-    ctx.rule("C14.reset", "restore before setup on reset (C11 rules)", 3)
+    ctx.rule("C14.reset", "restore before setup on reset; DAE back to its constructed state (C11 rules)", 5)
     ctx.assume("trajectory equality up to discretisation error for every split point is numerical: declined; these are necessary conditions only")
     repo = Repo()
     rule_resume(ctx, repo)
